@@ -294,7 +294,14 @@ def band_case(ctx, rng, idx):
     fig = getattr(chi.plots, pname)()
     before = digest(df)
     try:
-        fig.add_prediction(df, observable='conc', bulk_probs=list(probs))
+        # (without an observable argument the first observable of the
+        # frame is shown)
+        if df['Observable'].dropna().iloc[0] == 'conc' and idx % 3 == 2:
+            feats['observable_argument'] = False
+            fig.add_prediction(df, bulk_probs=list(probs))
+        else:
+            fig.add_prediction(df, observable='conc',
+                               bulk_probs=list(probs))
     except Exception as e:      # noqa
         ctx.violation_exc('add_prediction_raises', e, {'case': feats}, feats)
         return
@@ -457,6 +464,26 @@ def residual_case(ctx, rng, idx):
         {'ID': s + 1, 'Time': float(t), 'Observable': 'conc',
          'Value': float(rng.uniform(1, 5))}
         for s in range(int(rng.integers(1, 6))) for t in times])
+    # a second observable in both frames, before or after the one of
+    # interest (without an observable argument the first one of the
+    # prediction frame is shown)
+    target = 'conc'
+    if rng.random() < 0.5:
+        other_m = meas.assign(Observable='other',
+                              Value=rng.uniform(6, 9, len(meas)))
+        other_p = pred.assign(Observable='other',
+                              Value=rng.uniform(6, 9, len(pred)))
+        first = bool(rng.integers(2))
+        meas = pd.concat([other_m, meas] if rng.random() < 0.5
+                         else [meas, other_m], ignore_index=True)
+        pred = pd.concat([other_p, pred] if first else [pred, other_p],
+                         ignore_index=True)
+        if first:
+            target = 'other'
+    use_default_obs = rng.random() < 0.4
+    one_individual = None
+    if rng.random() < 0.4:
+        one_individual = int(rng.integers(1, n_ids + 1))
     if rng.random() < 0.5:
         meas = meas.iloc[rng.permutation(len(meas))]
     show_res = bool(rng.integers(2))
@@ -469,8 +496,14 @@ def residual_case(ctx, rng, idx):
     vals_before = meas['Value'].to_numpy().copy()
     try:
         fig = chi.plots.ResidualPlot(meas)
-        fig.add_data(pred, observable='conc', show_residuals=show_res,
-                     show_relative=show_rel)
+        kw_ = {}
+        if not use_default_obs:
+            target = 'conc'
+            kw_['observable'] = target
+        if one_individual is not None:
+            kw_['individual'] = one_individual
+        fig.add_data(pred, show_residuals=show_res, show_relative=show_rel,
+                     **kw_)
     except Exception as e:      # noqa
         ctx.violation_exc('residual_plot_raises', e, {'case': feats}, feats)
         return
@@ -481,9 +514,16 @@ def residual_case(ctx, rng, idx):
         ctx.violation('caller_frame_unchanged', 'frame_mutated:ResidualPlot',
                       {'case': feats}, feats)
         return
-    means = pred.groupby('Time')['Value'].mean()
+    feats['observable_argument'] = not use_default_obs
+    feats['individual_argument'] = one_individual is not None
+    means = pred[pred['Observable'] == target].groupby('Time')[
+        'Value'].mean()
     traces = list(fig._fig.data)
+    held_meas = meas
+    meas = meas[meas['Observable'] == target]
     ids = list(meas['ID'].unique())
+    if one_individual is not None:
+        ids = [one_individual]
     if len(traces) != len(ids):
         ctx.violation('one_marker_trace_per_individual',
                       'trace_count:ResidualPlot',
